@@ -18,6 +18,7 @@ from onl.sim import Environment
 from onl.packet import Packet
 from onl.scheduler import WFQ, VC, Monitor
 from vlib.util import bits, quiet
+from harness import construct
 
 INF = float('inf')
 
@@ -257,10 +258,13 @@ def build_instance(env, c):
     kw = {}
     if not c.get('f2c_default'):
         kw['flow2class'] = lambda f: f2c[f]
+    # c['ctor'] == 'positional': every published constructor parameter positionally, in the published order, debug=True included
+    # (harness/construct.py; DESIGN section 3).  Construction style is not an input of the model: the replay is the same.
+    style = 'positional' if c.get('ctor') == 'positional' else 'legacy'
     if c['kind'] == 'wfq':
-        sched = WFQ(env, c['rate'], table, **kw)
+        sched = construct.build(WFQ, dict(env=env, rate=c['rate'], weights=table, **kw), style)
     else:
-        sched = VC(env, c['rate'], table, **kw)
+        sched = construct.build(VC, dict(env=env, rate=c['rate'], vticks=table, **kw), style)
     run = StampRun(env, sched, c['kind'])
     counter = [0]
     for script in c['sources']:
@@ -278,6 +282,13 @@ def build_instance(env, c):
 def run_impl(c):
     """build the scheduler of case `c` - and, for a `multi` case, the other scheduler instances (`peers`) that live and
     carry traffic in the same Environment - run to exhaustion, return the StampRun (the peers' runs in `.peers`)"""
+    if any(uc.get('ctor') == 'positional' for uc in [c] + list(c.get('peers') or [])):
+        with construct.swallowed():         # debug=True devices print on every packet: swallowed for the duration of the case
+            return _run_impl(c)
+    return _run_impl(c)
+
+
+def _run_impl(c):
     env = Environment()
     run = build_instance(env, c)
     for pc in c.get('peers') or []:
@@ -312,13 +323,13 @@ def gen_multi(rng, cid, kind, aged=0.0):
     (finish stamps, virtual time, auxVC) is the state of THAT scheduler.  Every instance is observed, replayed through
     the model as a case of its own, and judged by the stamp and order oracles on its own arrivals only."""
     base = rng.choice(['random', 'random', 'edge', 'static', 'ties', 'idle'])
-    c = gen_case(rng, cid, kind, base, aged=aged)
+    c = _gen_case_aged(rng, cid, kind, base, aged=aged)
     c['family'], c['base_family'] = 'multi', base
     classes = [k for k, _ in c['table']]
     c['peers'] = []
     for j in range(rng.choice([1, 1, 2])):
         other = 'vc' if c['kind'] == 'wfq' else 'wfq'
-        p = gen_case(rng, f'{cid}.p{j + 1}', c['kind'] if rng.random() < 0.7 else other,
+        p = _gen_case_aged(rng, f'{cid}.p{j + 1}', c['kind'] if rng.random() < 0.7 else other,
                      rng.choice(['random', 'random', 'edge', 'static', 'idle']), share=classes,
                      rate=c['rate'] if rng.random() < 0.6 else None)
         p['monitors'] = p['monitors'][:1]
@@ -326,7 +337,20 @@ def gen_multi(rng, cid, kind, aged=0.0):
     return c
 
 
+POSITIONAL_SHARE = 0.15
+
+
 def gen_case(rng, cid, kind=None, family=None, share=None, rate=None, aged=0.0):
+    """a case; in a share of them the scheduler under test - and, independently, each peer of a `multi` group - is built with ALL
+    published constructor parameters positional, debug=True among them (harness/construct.py)"""
+    c = _gen_case_aged(rng, cid, kind, family, share, rate, aged)
+    for uc in [c] + list(c.get('peers') or []):
+        if rng.random() < POSITIONAL_SHARE:
+            uc['ctor'] = 'positional'
+    return c
+
+
+def _gen_case_aged(rng, cid, kind=None, family=None, share=None, rate=None, aged=0.0):
     """`aged`: share of the cases whose packets reach the scheduler some time after they were created (`Packet.time` < arrival
     instant, as behind a Wire): "the earlier arrival on equal stamps" is the earlier arrival AT THE SCHEDULER, whatever the packets'
     own creation stamps say.  The whole workload is shifted by the largest age so that creation instants stay >= 0."""
